@@ -419,6 +419,26 @@ fn check(ch: &mut Choices, cx: &mut Ctx) -> R {
                 nt = true;
             }
         }
+        // an expression whose encoding needs more than the 2-byte length field of .debug_loc (versions 2-4):
+        // 1 opcode + 3 length bytes + k value bytes = 65535 (fits) / 65536 / more (must be refused before version 5)
+        if !locs.is_empty() && ch.chance(5) {
+            let k = ch.pick(&[65531usize, 65532, 65532, 70000]);
+            let li = ch.below(locs.len());
+            let mut placed = false;
+            for e in locs[li].iter_mut() {
+                if let WLoc::OffsetPair(_, _, d) | WLoc::StartEnd(_, _, d) | WLoc::StartLength(_, _, d) | WLoc::DefaultLocation(d) = e {
+                    *d = vec![WOp::ImplicitValue(vec![0xab; k])];
+                    placed = true;
+                    break;
+                }
+            }
+            if placed {
+                cx.label("location expression around 65535 bytes");
+                if version < 5 && k > 65531 {
+                    overall = overall.worse(Verdict::Must("location expression longer than 65535 bytes in .debug_loc"));
+                }
+            }
+        }
         for (i, l) in locs.iter().enumerate() {
             overall = overall.worse(verdict(&shapes_l(l), version, a, unit_base));
             entries.push(WEntry { parent: 0, tag: 0x34, sibling: false, attrs: vec![(LOC_NAMES[ch.below(LOC_NAMES.len())], WVal::LocationListRef(i))], reserved_early: false, never_added: false });
@@ -498,6 +518,98 @@ fn check(ch: &mut Choices, cx: &mut Ctx) -> R {
     Ok(())
 }
 
+/// The base-address rules with a *symbolic* unit base: the unit's DW_AT_low_pc and every list address are
+/// `Address::Symbol`, the sections are written through a relocation-recording writer and the relocations applied.
+/// A symbolic low_pc is a base address like any other: offset pairs need it, address pairs conflict with it (pre-v5).
+fn check_symbolic(ch: &mut Choices, cx: &mut Ctx) -> R {
+    cx.label("symbolic unit base");
+    let big = ch.bool();
+    let version = ch.pick(&[4u16, 3, 2, 5, 4]);
+    let a = ch.pick(&[8u8, 4]);
+    let low_pc = match ch.below(3) {
+        0 => None,
+        1 => Some(0u64),
+        _ => Some(0x1_0000 + ch.below(16) as u64 * 0x1000),
+    };
+    let mut entries = vec![WEntry { parent: 0, tag: 0x11, sibling: false, attrs: vec![], reserved_early: false, never_added: false }];
+    if let Some(b) = low_pc {
+        entries[0].attrs.push((0x11, WVal::Address(b)));
+    }
+    // list shapes: 0 = offset pairs only, 1 = address pairs only, 2 = base selection then offset pairs
+    let mut verdict_ok = true;
+    let mut why = "";
+    let mut gen_shape = |ch: &mut Choices| -> (Vec<WRange>, usize) {
+        let shape = ch.below(3);
+        let n = 1 + ch.below(3);
+        let mut v = Vec::new();
+        if shape == 2 {
+            v.push(WRange::BaseAddress(0x40_0000 + ch.below(8) as u64 * 0x1000));
+        }
+        for _ in 0..n {
+            let b = 0x10 + ch.below(0x800) as u64;
+            let len = 1 + ch.below(0x40) as u64;
+            v.push(match shape {
+                1 => {
+                    if ch.bool() {
+                        WRange::StartEnd(0x20_0000 + b, 0x20_0000 + b + len)
+                    } else {
+                        WRange::StartLength(0x20_0000 + b, len)
+                    }
+                }
+                _ => WRange::OffsetPair(b, b + len),
+            });
+        }
+        (v, shape)
+    };
+    let nr = 1 + ch.below(2);
+    let nl = ch.below(2);
+    let mut ranges = Vec::new();
+    let mut locs = Vec::new();
+    let mut judge = |shape: usize| {
+        if version < 5 {
+            match (shape, low_pc.is_some()) {
+                (0, false) => {
+                    verdict_ok = false;
+                    why = "offset pairs in a unit without a base address";
+                }
+                (1, true) => {
+                    verdict_ok = false;
+                    why = "address pairs in a unit that has a (symbolic) base address";
+                }
+                _ => {}
+            }
+        }
+    };
+    for i in 0..nr {
+        let (l, shape) = gen_shape(ch);
+        judge(shape);
+        ranges.push(l);
+        entries.push(WEntry { parent: 0, tag: 0x2e, sibling: false, attrs: vec![(0x55, WVal::RangeListRef(i))], reserved_early: false, never_added: false });
+    }
+    for i in 0..nl {
+        let (l, shape) = gen_shape(ch);
+        judge(shape);
+        let l: Vec<WLoc> = l
+            .into_iter()
+            .map(|r| match r {
+                WRange::BaseAddress(x) => WLoc::BaseAddress(x),
+                WRange::OffsetPair(b, e) => WLoc::OffsetPair(b, e, gen_simple_expr(ch, 1)),
+                WRange::StartEnd(b, e) => WLoc::StartEnd(b, e, gen_simple_expr(ch, 1)),
+                WRange::StartLength(b, l) => WLoc::StartLength(b, l, gen_simple_expr(ch, 1)),
+            })
+            .collect();
+        locs.push(l);
+        entries.push(WEntry { parent: 0, tag: 0x34, sibling: false, attrs: vec![(0x02, WVal::LocationListRef(i))], reserved_early: false, never_added: false });
+    }
+    let m = WDwarf { big, units: vec![WUnit { version, format64: ch.chance(64), address_size: a, entries, ranges, locs, files: None }] };
+    let expect = if verdict_ok { Expect::Ok } else { Expect::MustFail(why) };
+    cx.sample_with(|| format!("symbolic addresses, {} v{} addr{} low_pc {:x?} ranges {:x?} locs {:?} expect {:?}", if big { "BE" } else { "LE" }, version, a, low_pc, m.units[0].ranges, m.units[0].locs.iter().map(|l| shapes_dbg(l)).collect::<Vec<_>>(), expect));
+    if low_pc.is_some() && version < 5 {
+        cx.nt();
+    }
+    with_symbolic_write(|| check_written(&m, &expect, cx, "c16/symbolic"))
+}
+
 fn ensure_dummy() -> R {
     ensure!(true, "c16/dummy", "");
     Ok(())
@@ -520,7 +632,7 @@ impl Prop for C16 {
         "C16"
     }
     fn rule(&self) -> &'static str {
-        "generated units (1-2; versions 2-5 x 32/64-bit x address size 4/8 x byte order; DW_AT_low_pc absent / zero / non-zero) each with 1-4 range lists and 0-3 location lists, some equal to an earlier list; lists are either valid by construction or drawn from boundary values (0, 1, all-ones, all-ones-1/-2, 2^32, u64::MAX, begin = end, begin + length wrapping, offsets without a base, address pairs with a base, default locations before v5); location expressions include entry references (typed constants, calls, cross-unit call_ref). Oracle: the request: attr_ranges/attr_locations on the read-back unit must yield the model resolution (harness/src/c08.rs resolve, relative to the unit base) of the requested list with the requested expressions; equal lists get equal ids, get(id) returns the list, and the emitted section contains exactly one copy per distinct list (independent section walker); a request that is not representable unambiguously in the chosen encoding (independent verdict function over the entry shapes) must be refused. Non-trivial = a base-address entry followed by an offset pair in a unit with >= 2 lists, or a negative case; distinct by choice string."
+        "generated units (1-2; versions 2-5 x 32/64-bit x address size 4/8 x byte order; DW_AT_low_pc absent / zero / non-zero) each with 1-4 range lists and 0-3 location lists, some equal to an earlier list; lists are either valid by construction or drawn from boundary values (0, 1, all-ones, all-ones-1/-2, 2^32, u64::MAX, begin = end, begin + length wrapping, offsets without a base, address pairs with a base, default locations before v5); location expressions include entry references (typed constants, calls, cross-unit call_ref). Oracle: the request: attr_ranges/attr_locations on the read-back unit must yield the model resolution (harness/src/c08.rs resolve, relative to the unit base) of the requested list with the requested expressions; equal lists get equal ids, get(id) returns the list, and the emitted section contains exactly one copy per distinct list (independent section walker); a request that is not representable unambiguously in the chosen encoding (independent verdict function over the entry shapes) must be refused. separate mode (symbolic unit base): DW_AT_low_pc and all list addresses are Address::Symbol, written through a relocation-recording writer whose relocations are then applied; offset pairs must be accepted exactly when the unit has a (symbolic) base and address pairs exactly when it has none (pre-v5), and the lists must read back as requested. Non-trivial = a base-address entry followed by an offset pair in a unit with >= 2 lists, or a negative case, or a symbolic base in a pre-v5 unit; distinct by choice string."
     }
     fn assumptions(&self) -> Vec<&'static str> {
         vec![
@@ -540,6 +652,9 @@ impl Prop for C16 {
         }
     }
     fn run_case(&self, ch: &mut Choices, cx: &mut Ctx) -> R {
+        if ch.chance(24) {
+            return check_symbolic(ch, cx);
+        }
         check(ch, cx)
     }
 }
